@@ -169,8 +169,8 @@ CHECKS: dict[str, dict] = {
     "C15": {
         "engine": "frontier-model",
         "technique": "Frontier.tla: TLC's breadth-first search over whole-transaction actions (Evm!Run) brute-forces every bounded call sequence; verdicts of run_contract compared and reported sequences replayed on Evm.tla",
-        "text": "Frontier.tla specifies bounded invariant testing (any sequence of <= d calls target x function x arguments x sender x value from the post-setUp world, reverted calls dropped, the invariant and target assertions checked after each call; states merged only when their worlds are equal, by a VIEW). For generated two-word state machines whose functions make the finite domains complete (arguments masked to 0..3, senders compared with one owner, values with 1) TLC decides breakability within depth d and prints a shortest breaking sequence. halmos' run_contract with --invariant-depth d must FAIL iff an invariant break exists; every valid counterexample (call sequence and model captured at the solver callback) is concretised and replayed on Evm.tla and must break the invariant.",
-        "note": "Timestamps are not read by the generated targets; target/exclude filter combinations are exercised by the filter scenarios of the thorough tier. Recorded finding: an assertion failing inside a target is printed but not part of the verdict.",
+        "text": "Frontier.tla specifies bounded invariant testing (any sequence of <= d calls target x function x arguments x sender x value x non-decreasing timestamp from the post-setUp world, targets and senders resolved from the declared filters by Foundry's rules, reverted calls dropped, the invariant and target assertions checked after each call; states merged only when their worlds are equal, by a VIEW). For generated two-word state machines whose functions make the finite domains complete (arguments masked to 0..3, senders compared with one owner, values with 1) TLC decides breakability within depth d and prints a shortest breaking sequence. halmos' run_contract with --invariant-depth d must FAIL iff an invariant break exists; every valid counterexample (call sequence and model captured at the solver callback) is concretised and replayed on Evm.tla and must break the invariant.",
+        "note": "Timestamps: the generated targets compare block.timestamp only with the timestamp of an earlier call, so TLC's domain of depth+1 non-decreasing timestamps is complete. A third of the machines declare target/exclude filters (contracts, selectors, senders) through forge-std's getters; Frontier!TargetAddrs/TargetFns/Senders resolve them and the calls / admitted senders halmos sets up are compared with the resolved sets. Recorded findings: an assertion failing inside a target is printed but not part of the verdict; the first call of every sequence runs at setUp's timestamp.",
         "design_ref": "5 C15, A.4",
     },
     "C17": {
